@@ -18,7 +18,7 @@ def job_ast(item):
     top, forced, height, ddepth, deadline, cap = item
     prog = PROG; eng = Engine(prog); eng.deadline = deadline; S = Summary(); XP.init_decls(prog)
     ex0 = PathExec(eng, []); rtc = XP.mk_runtime(ex0)
-    aspec = SA.AstSpec(prog, height, fields=('a', 'b'), leaf=['Identity', 'Field', 'Index', 'Literal'] + (['Slice'] if FULL else []), lit_spec=SY.DocSpec(depth=0, A=0, keys=(), strs=('', 'a'), nums=[0, 1]))
+    aspec = SA.AstSpec(prog, height, fields=('a', 'b'), leaf=['Identity', 'Field', 'Index', 'Literal'] + (['Slice'] if FULL else []) + (['Function'] if 'Function' in forced else []), lit_spec=SY.DocSpec(depth=0, A=0, keys=(), strs=('', 'a'), nums=[0, 1]))
     dspec = SY.DocSpec(depth=ddepth, A=2, keys=('a', 'b'), strs=('', 'a'), nums=[0, 1, -1, 1.5])
     kvf = prog.decls.structs['KeyValuePair']
     def part(ex, node, data):
@@ -121,7 +121,7 @@ def job_ast(item):
     return S
 
 PIPE_L = ['a', 'a.b', 'a[0]', 'a[*]', 'a[*].b', 'a[]', 'a.*', 'a[?b]', 'a[1:]', '[a, b]', '{x: a}', 'a || b', '!a', 'a == b', '`null`', '@', 'missing', 'a[*].b | [0]']
-PIPE_R = ['a', 'b', '[0]', '[*]', '[*].b', '[]', '*', '[?b]', '[?@]', '[::-1]', '[@, a]', '{x: @}', '@ || `1`', '!@', '@ == `null`', '`1`', '@', 'a[0]']
+PIPE_R = ['type(@)', 'a.type(@)', 'a', 'b', '[0]', '[*]', '[*].b', '[]', '*', '[?b]', '[?@]', '[::-1]', '[@, a]', '{x: @}', '@ || `1`', '!@', '@ == `null`', '`1`', '@', 'a[0]', 'a | `1`', 'not_null(@, `1`)', 'a.b.type(@)', '[0].type(@)', 'to_array(@)']
 def job_pipe(item):
     """search('(L) | (R)', d) == search(R, search(L, d)) with the real parser for the three expressions"""
     ltxt, rtxt, ddepth, deadline = item
@@ -191,8 +191,12 @@ def run(run):
         elif quick or not child_slots(k): jobs.append(('ast', k, (), 1, 2, dl, 10**7))
         else: jobs += [('ast', k, (c1,), 1, 2, dl, 10**7) for c1 in SA.LEAF] + [('ast', k, (c1,), 2, 2, dl, 60000) for c1 in ['Identity', 'Field', 'Projection', 'Subexpr', 'Flatten', 'Or', 'MultiList']]
     jobs += [('ast', 'Flatten', (), 1, 3, dl, 10**7), ('ast', 'ObjectValues', (), 1, 3, dl, 10**7)]
+    # a part that is a call of the total built-in `type` (its value on null is not null): as either operand of every binary form, under `!`
+    for k in ('Subexpr', 'Or', 'And', 'Projection', 'Condition'): jobs += [('ast', k, (None, 'Function'), 1, 2, dl, 10**7), ('ast', k, ('Function', None), 1, 2, dl, 10**7)]
+    jobs += [('ast', 'Not', ('Function',), 1, 2, dl, 10**7)]
     nl = 5 if quick else len(PIPE_L)
     ls = [PIPE_L[(i + run.seed) % len(PIPE_L)] for i in range(nl)]; rs = [PIPE_R[(i * 5 + run.seed) % len(PIPE_R)] for i in range(nl)] if quick else PIPE_R
+    if quick: ls = list(dict.fromkeys(ls + ['missing'])); rs = list(dict.fromkeys(rs + ['type(@)', 'a.type(@)']))       # a null left side with a right side that is not null on null: always
     jobs += [('pipe', l, r, 2 if ('==' not in l + r) else 1, dl) for l in ls for r in rs]
     run.bounds = {'AST level': 'every compound node kind over lazily initialised parts of height ' + ('1' if quick else '1 (all leaf kinds) and 2 (sharded)') + ' (leaf kinds Identity, Field{a,b}, Index any i32 in the lexer range, Literal scalar' + ('' if quick else ', Slice symbolic') + '); documents depth 2, arrays <= 2',
                   'parsed level': f'(L) | (R) for {len(ls)} x {len(rs)} expression texts through the real parser, documents depth 2'}
